@@ -22,8 +22,9 @@ META = {
              "announces a next validator set of total power 0 (C09_kernel_messages_never_panic_partial; without that proviso the "
              "statement is refuted by a witness: ByzantineMajority(0)); a replayed header panics exactly when its commit proof is for a "
              "round the mirror has left (known finding, witness replayed on the code on every run). Monitored, not proved: the real "
-             "mirror under generated histories with replays, a stalling / racing state machine and gossip reader (process death = "
-             "violation); entrance of a slow state machine into an orphaned round panics (known finding). State-machine panics are "
+             "mirror under generated histories with replays, a stalling / racing state machine and gossip reader, and under batches of "
+             "overlapping messages from CONCURRENT callers some of which give up while the kernel works on their request (process death "
+             "or a kernel that stops answering = violation); entrance of a slow state machine into an orphaned round panics (known finding). State-machine panics are "
              "C08's findings; deadlock / slow-driver liveness is named residue.",
     "note": "Trusted: Coq kernel, the translator and extractors (cross-checked by differential execution every run), "
             "the Go harness. Residue: deadlock / slow-driver liveness, typed-nil interface values passed as option values.",
